@@ -1,6 +1,9 @@
 //! C07 — honest distributed key generation ends with one group key and matching shares.
 
+use std::collections::BTreeMap;
+
 use frost_core::keys::PublicKeyPackage;
+use frost_core::Identifier;
 use serde_json::json;
 
 use crate::alg::*;
@@ -28,6 +31,19 @@ pub fn run<C: Suite>(ctx: &mut Ctx) {
                     continue;
                 }
                 ctx.guard(|ctx| item::<C>(ctx, n, t, kind));
+            }
+        }
+    }
+    for (n, t) in [(2u16, 2u16), (3, 2), (3, 3), (4, 3), (5, 4)] {
+        for which in ["zero-share", "same-polynomial"] {
+            for kind in ["default", "sparse-u16", "derived"] {
+                if ctx.quick() && kind != "default" && (n + t) % 2 == 0 {
+                    continue;
+                }
+                if !ctx.item(&format!("special polynomials {which} n={n} t={t} ids={kind}")) {
+                    continue;
+                }
+                ctx.guard(|ctx| special_polynomials::<C>(ctx, n, t, kind, which));
             }
         }
     }
@@ -102,6 +118,84 @@ pub fn judge_dkg<C: Suite>(ctx: &mut Ctx, grp: &Grp<C>, run: &DkgRun<C>, pkps: &
         }
         ctx.count("participants_checked");
     }
+}
+
+/// Honest runs with *particular* polynomials (the property quantifies over all of them): a participant whose polynomial
+/// has a root at a peer's identifier (that peer's share is the zero scalar), and two participants who happen to use the
+/// same polynomial (each with its own valid proof of knowledge).
+fn special_polynomials<C: Suite>(ctx: &mut Ctx, n: u16, t: u16, kind: &str, which: &str) {
+    use frost_core::keys::dkg::round1;
+    use frost_core::keys::{CoefficientCommitment, VerifiableSecretSharingCommitment};
+    let mut rng = ctx.rng("dkg-special");
+    let mut p = ctx.pick("choices");
+    let ids = identifiers::<C>(kind, n as usize, &mut p);
+    let mut r1_secret = BTreeMap::new();
+    let mut r1_pkgs = BTreeMap::new();
+    let mut coeffs: IdMap<C, Vec<Sc<C>>> = BTreeMap::new();
+    for id in &ids {
+        let Ok((s, pk)) = C::api_dkg_part1(*id, n, t, &mut rng) else { return ctx.viol("honest-dkg-failed", "part1", json!({"n": n, "t": t})) };
+        coeffs.insert(*id, s.coefficients());
+        r1_secret.insert(*id, s);
+        r1_pkgs.insert(*id, pk);
+    }
+    let (a, b) = (ids[0], ids[1]);
+    let commit = |co: &[Sc<C>]| VerifiableSecretSharingCommitment::<C>::new(co.iter().map(|c| CoefficientCommitment::<C>::new(g::<C>() * *c)).collect());
+    match which {
+        "zero-share" => {
+            // keep a_0 (and with it the proof of knowledge, which covers the constant term only); choose the leading
+            // coefficient so that f_a(b) = 0
+            let mut co = coeffs[&a].clone();
+            let x = id_sc::<C>(&b);
+            let mut pw = one::<C>();
+            let mut acc = zero::<C>();
+            for c in co.iter().take(t as usize - 1) {
+                acc = acc + *c * pw;
+                pw = pw * x;
+            }
+            let Some(inv_pw) = inv::<C>(pw) else { return };
+            let lead = neg::<C>(acc) * inv_pw;
+            if lead == zero::<C>() {
+                return;
+            }
+            *co.last_mut().unwrap() = lead;
+            let cm = commit(&co);
+            let pok = *r1_pkgs[&a].proof_of_knowledge();
+            r1_secret.insert(a, round1::SecretPackage::<C>::new(a, co.clone(), cm.clone(), t, n));
+            r1_pkgs.insert(a, round1::Package::<C>::new(cm, pok));
+            coeffs.insert(a, co);
+        }
+        _ => {
+            // b uses a's polynomial, with a proof of knowledge of its own
+            let co = coeffs[&a].clone();
+            let cm = commit(&co);
+            let Ok(pok) = frost_core::keys::dkg::compute_proof_of_knowledge::<C, _>(b, &co, &cm, &mut rng) else { return };
+            r1_secret.insert(b, round1::SecretPackage::<C>::new(b, co.clone(), cm.clone(), t, n));
+            r1_pkgs.insert(b, round1::Package::<C>::new(cm, pok));
+            coeffs.insert(b, co);
+        }
+    }
+    let d = |e: String| json!({"n": n, "t": t, "ids": kind, "polynomials": which, "err": e});
+    let run = match dkg_round2_all::<C>(&ids, r1_secret, r1_pkgs, coeffs) {
+        Ok(r) => r,
+        Err(e) => return ctx.viol("honest-dkg-failed", &format!("special-polynomials/{which}/part2"), d(format!("{e:?}"))),
+    };
+    if which == "zero-share" && run.r2_pkgs[&a][&b].signing_share().to_scalar() != zero::<C>() {
+        return ctx.viol("harness-error", "zero-share-not-zero", json!({}));
+    }
+    let (grp, run, pkps) = match dkg_finish::<C>(n, t, &ids, run) {
+        Ok(x) => x,
+        Err(e) => return ctx.viol("honest-dkg-failed", &format!("special-polynomials/{which}/part3"), d(format!("{e:?}"))),
+    };
+    judge_dkg(ctx, &grp, &run, &pkps, &format!("c07-{which}"));
+    let signers: Vec<_> = grp.ids.iter().take(t as usize).copied().collect();
+    match sign_session(&grp, &signers, b"special polynomials", &mut rng) {
+        Ok(sess) => {
+            judge_session(ctx, "after-dkg-special", &grp, &sess, b"special polynomials", false);
+        }
+        Err((id, e)) => ctx.viol("honest-sign-failed", "after-dkg-special", json!({"n": n, "t": t, "signer": id_hex::<C>(&id), "err": format!("{e:?}")})),
+    }
+    ctx.class(format!("special-polynomials/{which}/n={n}/t={t}/{kind}"));
+    ctx.count("dkg_runs_special_polynomials");
 }
 
 fn item<C: Suite>(ctx: &mut Ctx, n: u16, t: u16, kind: &str) {
